@@ -13,6 +13,9 @@ Self-contained (imports only the model).
   start counter on, loading at counter `a + k` is loading at `a`, renamed, with the counter shifted.
 * name tables of a loaded component are duplicate-free; the emitted statements inherit that.
 * `resolveImport` / `loadFile` depend on the bundle's existence list only through the probes.
+* systems: `renameInst` (the renaming on a whole instance tree), `loadFile_rename` (the renaming theorem for
+  `Sys.loadFile`, with monotonicity of the counter), `instStmts_rename`; `TreeOk`, `tree_names_nodup`,
+  `loadFile_treeOk` (uniqueness of declared names over the whole tree when instance and signal names are `-`-free).
 -/
 set_option linter.unusedSimpArgs false
 namespace Pepper.CompShift
@@ -1967,6 +1970,339 @@ theorem tree_names_nodup (inst : Inst) (h : TreeOk inst) :
     · intro pfx signals lengths
       rw [sig_structNames]
       exact List.nil_sublist _
+
+/-! #### a successful load yields a well-formed tree -/
+
+theorem registerAnon_pfx (s : St) (b : Built) : (registerAnon s b).pfx = s.pfx := by
+  unfold registerAnon
+  generalize b.items = its
+  induction its generalizing s with
+  | nil => rfl
+  | cons i r ih =>
+    simp only [List.foldl_cons]
+    split
+    · exact ih s
+    · split
+      · rw [ih]
+      · exact ih s
+
+theorem addStmt_pfx {s s' : St} {a a' : Nat} : ∀ {st : Stmt}, addStmt s a st = .ok (s', a') → s'.pfx = s.pfx
+  | .seq name items len, h => by
+    unfold addStmt at h
+    by_cases hs : (s.findSeq name).isSome = true
+    · simp [hs] at h
+    · simp only [hs, Bool.false_eq_true, if_false] at h
+      split at h
+      · split at h
+        · injection h with h; injection h with h _; subst h; rfl
+        · cases h
+      · cases hc : cleanConst s items with
+        | error e => simp [hc, bind, Except.bind] at h
+        | ok cs =>
+          cases hb : buildSuper a cs len with
+          | error e => simp [hc, hb, bind, Except.bind] at h
+          | ok b =>
+            simp only [hc, hb, bind, Except.bind, pure, Except.pure] at h
+            injection h with h; injection h with h _; subst h
+            rw [registerAnon_pfx]
+  | .strand dummy name items len, h => by
+    unfold addStmt at h
+    by_cases hs : (s.findStrand name).isSome = true
+    · simp [hs, throw, throwThe, MonadExceptOf.throw, bind, Except.bind] at h
+    · simp only [hs, Bool.false_eq_true, if_false] at h
+      cases hc : cleanConst s items with
+      | error e => simp [hc, bind, Except.bind] at h
+      | ok cs =>
+        cases hb : buildSuper a cs len with
+        | error e => simp [hc, hb, bind, Except.bind] at h
+        | ok b =>
+          simp only [hc, hb, bind, Except.bind, pure, Except.pure] at h
+          split at h
+          · simp [throw, throwThe, MonadExceptOf.throw] at h
+          · simp only [Except.ok.injEq, Prod.mk.injEq] at h
+            obtain ⟨h, _⟩ := h
+            subst h
+            show (registerAnon _ b).pfx = s.pfx
+            rw [registerAnon_pfx]
+  | .struct opt name strands domain text, h => by
+    unfold addStmt at h
+    simp only [bind, Except.bind, pure, Except.pure] at h
+    repeat' split at h
+    all_goals first
+      | (cases h; done)
+      | (simp [throw, throwThe, MonadExceptOf.throw] at h; done)
+      | (simp only [Except.ok.injEq, Prod.mk.injEq] at h
+         obtain ⟨h, _⟩ := h
+         subst h
+         rfl)
+  | .kinetic low high ins outs, h => by
+    unfold addStmt at h
+    simp only [bind, Except.bind, pure, Except.pure] at h
+    repeat' split at h
+    all_goals first
+      | (cases h; done)
+      | (simp [throw, throwThe, MonadExceptOf.throw] at h; done)
+      | (simp only [Except.ok.injEq, Prod.mk.injEq] at h
+         obtain ⟨h, _⟩ := h
+         subst h
+         rfl)
+
+theorem addStmts_pfx {s' : St} {a' : Nat} : ∀ (stmts : List Stmt) (s : St) (a : Nat),
+    addStmts s a stmts = .ok (s', a') → s'.pfx = s.pfx
+  | [], s, a, h => by
+    simp only [addStmts, Except.ok.injEq, Prod.mk.injEq] at h
+    rw [← h.1]
+  | st :: r, s, a, h => by
+    simp only [addStmts] at h
+    cases h1 : addStmt s a st with
+    | error e => simp [h1] at h
+    | ok res =>
+      obtain ⟨s1, a1⟩ := res
+      simp only [h1] at h
+      rw [addStmts_pfx r s1 a1 h, addStmt_pfx h1]
+
+theorem load_pfx {src : Src} {n : Nat} {pfx : String} {a : Nat} {st : St} {a' : Nat}
+    (h : load src n pfx a = .ok (st, a')) : st.pfx = pfx := by
+  unfold load at h
+  by_cases hn : (src.params.length != n) = true
+  · simp [hn, throw, throwThe, MonadExceptOf.throw, bind, Except.bind] at h
+  · simp only [hn, Bool.false_eq_true, if_false, bind, Except.bind, pure, Except.pure] at h
+    cases hs : addStmts { name := src.name, pfx := pfx, params := src.params } a src.stmts with
+    | error e => simp [hs] at h
+    | ok res =>
+      obtain ⟨s1, a1⟩ := res
+      simp only [hs] at h
+      cases hio : addIO s1 src.inputs src.outputs with
+      | error e => simp [hio] at h
+      | ok s2 =>
+        simp only [hio, Except.ok.injEq, Prod.mk.injEq] at h
+        obtain ⟨rfl, _⟩ := h
+        rw [(addIO_tables hio).2.2.2, addStmts_pfx src.stmts _ a hs]
+
+theorem lookup_isSome_iff {β} (l : List (String × β)) (n : String) :
+    (l.lookup n).isSome = true ↔ n ∈ l.map (·.1) := by
+  induction l with
+  | nil => simp
+  | cons h t ih =>
+    obtain ⟨m, v⟩ := h
+    simp only [List.lookup, List.map_cons, List.mem_cons]
+    by_cases e : n = m
+    · subst e; simp
+    · have : (n == m) = false := by simpa using e
+      simp [this, ih, e]
+
+theorem addSig_keys (sg : List (String × List SigEntry)) (n : String) (e : SigEntry) :
+    (addSig sg n e).map (·.1) = if n ∈ sg.map (·.1) then sg.map (·.1) else sg.map (·.1) ++ [n] := by
+  unfold addSig
+  by_cases h : (sg.lookup n).isSome = true
+  · have hm := (lookup_isSome_iff sg n).1 h
+    simp only [h, if_true, hm, List.map_map]
+    apply List.map_congr_left
+    intro x _
+    simp only [Function.comp]
+    split <;> rfl
+  · have hm : n ∉ sg.map (·.1) := fun c => h ((lookup_isSome_iff sg n).2 c)
+    simp [h, hm]
+
+theorem bindStep_keys {cname : String} {acc acc' : List (String × List SigEntry) × List (String × Nat)}
+    {gp : SigRef × (Sys.Port × Bool × Nat × Bool)} (h : bindStep cname acc gp = .ok acc')
+    (hn : (acc.1.map (·.1)).Nodup) :
+    (acc'.1.map (·.1)).Nodup ∧ ∀ g ∈ acc'.1.map (·.1), g ∈ acc.1.map (·.1) ∨ g = gp.1.name := by
+  have key : ∀ e, ((addSig acc.1 gp.1.name e).map (·.1)).Nodup ∧
+      ∀ g ∈ (addSig acc.1 gp.1.name e).map (·.1), g ∈ acc.1.map (·.1) ∨ g = gp.1.name := by
+    intro e
+    rw [addSig_keys]
+    split
+    · exact ⟨hn, fun g hg => Or.inl hg⟩
+    · rename_i hnot
+      refine ⟨nodup_append_singleton hn hnot, ?_⟩
+      intro g hg
+      rcases List.mem_append.1 hg with hg | hg
+      · exact Or.inl hg
+      · exact Or.inr (by simpa using hg)
+  unfold bindStep at h
+  split at h
+  · split at h
+    · cases h
+    · injection h with h; subst h; exact key _
+  · split at h
+    · cases h
+    · injection h with h; subst h; exact key _
+
+theorem bindFold_keys {cname : String} :
+    ∀ (zs : List (SigRef × (Sys.Port × Bool × Nat × Bool))) {acc acc' : List (String × List SigEntry) × List (String × Nat)},
+      zs.foldlM (bindStep cname) acc = .ok acc' → (acc.1.map (·.1)).Nodup →
+      (acc'.1.map (·.1)).Nodup ∧ ∀ g ∈ acc'.1.map (·.1), g ∈ acc.1.map (·.1) ∨ g ∈ zs.map (·.1.name)
+  | [], acc, acc', h, hn => by
+    simp only [List.foldlM_nil, pure, Except.pure, Except.ok.injEq] at h
+    subst h
+    exact ⟨hn, fun g hg => Or.inl hg⟩
+  | z :: r, acc, acc', h, hn => by
+    simp only [List.foldlM_cons, bind, Except.bind] at h
+    cases h1 : bindStep cname acc z with
+    | error e => simp [h1] at h
+    | ok acc1 =>
+      simp only [h1] at h
+      obtain ⟨hn1, hk1⟩ := bindStep_keys h1 hn
+      obtain ⟨hn2, hk2⟩ := bindFold_keys r h hn1
+      refine ⟨hn2, ?_⟩
+      intro g hg
+      rcases hk2 g hg with hg | hg
+      · rcases hk1 g hg with hg | hg
+        · exact Or.inl hg
+        · exact Or.inr (by simp [hg])
+      · exact Or.inr (List.mem_cons_of_mem _ hg)
+
+theorem CompsOk_snoc (pfx : String) (cname : String) (inst : Inst) :
+    ∀ (c : List (String × Inst)), CompsOk pfx c → instPfx inst = pfx ++ cname ++ "-" → TreeOk inst →
+      CompsOk pfx (c ++ [(cname, inst)])
+  | [], _, h1, h2 => by simp only [List.nil_append, CompsOk]; exact ⟨h1, h2, trivial⟩
+  | (n, i) :: r, h, h1, h2 => by
+    simp only [List.cons_append, CompsOk] at h ⊢
+    exact ⟨h.1, h.2.1, CompsOk_snoc pfx cname inst r h.2.2 h1 h2⟩
+
+/-- instance and signal names written in a system source contain no `-` (the system grammar's identifiers
+    are `Word(alphas, alphanums+"_")`) -/
+def sstmtDashFree : SStmt → Prop
+  | .component cname _ _ ins outs => dashFree cname ∧ ∀ g ∈ ins ++ outs, dashFree g.name
+  | .imports _ => True
+
+def BundleDashFree (b : Bundle) : Prop :=
+  ∀ key s, b.files.lookup key = some (.sys s) → ∀ st ∈ s.stmts, sstmtDashFree st
+
+theorem SysOk_setTemplate (st : SysSt) (t : List (String × String)) (h : SysOk st) : SysOk (setTemplate st t) := by
+  cases st; exact h
+
+theorem loadStmts_treeOk (b : Bundle) (fuel : Nat) (includes : List String)
+    (hLF : ∀ base args key pfx path a inst a', loadFile b fuel base args key pfx path includes a = .ok (inst, a') →
+      TreeOk inst ∧ instPfx inst = pfx) :
+    ∀ (stmts : List SStmt) (st : SysSt) (a : Nat) {st' : SysSt} {a' : Nat}, SysOk st →
+      (∀ s ∈ stmts, sstmtDashFree s) → loadStmts b fuel includes stmts st a = .ok (st', a') →
+      SysOk st' ∧ st'.pfx = st.pfx
+  | [], st, a, st', a', hok, _, h => by
+    rw [loadStmts] at h
+    injection h with h
+    injection h with h _
+    subst h
+    exact ⟨hok, rfl⟩
+  | .imports items :: r, st, a, st', a', hok, hdf, h => by
+    rw [loadStmts_imports_eq] at h
+    cases hi : loadStmts.addImports items st.template with
+    | error e => simp [hi] at h
+    | ok t =>
+      simp only [hi] at h
+      have := loadStmts_treeOk b fuel includes hLF r (setTemplate st t) a (SysOk_setTemplate st t hok)
+        (fun s hs => hdf s (List.mem_cons_of_mem _ hs)) h
+      refine ⟨this.1, ?_⟩
+      rw [this.2]
+      cases st; rfl
+  | .component cname templ args ins outs :: r, st, a, st', a', hok, hdf, h => by
+    rw [loadStmts_component_eq] at h
+    have hdfc := hdf _ List.mem_cons_self
+    simp only [sstmtDashFree] at hdfc
+    cases ht : st.template.lookup templ with
+    | none => simp [ht] at h
+    | some tpath =>
+      simp only [ht] at h
+      by_cases hd : (st.components.lookup cname).isSome = true
+      · simp [hd] at h
+      · simp only [hd, Bool.false_eq_true, if_false] at h
+        cases hlf : loadFile b fuel tpath args ("@" ++ st.pfx ++ cname) (st.pfx ++ cname ++ "-") st.path includes a with
+        | error e => simp [hlf] at h
+        | ok x =>
+          obtain ⟨inst, a1⟩ := x
+          simp only [hlf] at h
+          obtain ⟨hti, hpi⟩ := hLF _ _ _ _ _ _ _ _ hlf
+          split at h
+          · cases h
+          · cases hbs : bindSigs cname st.signals st.lengths (ins ++ outs) (instPorts inst) with
+            | error e => simp [hbs] at h
+            | ok sl =>
+              obtain ⟨sg, l⟩ := sl
+              simp only [hbs] at h
+              have hnew : SysOk (addComp st sg l cname inst) := by
+                obtain ⟨p, n, pf, t, sg0, l0, c0, i0, o0⟩ := st
+                simp only [SysOk] at hok
+                obtain ⟨hc1, hc2, hs1, hs2, hcomps⟩ := hok
+                have hnotin : cname ∉ c0.map (·.1) := by
+                  intro hc
+                  exact hd ((lookup_isSome_iff c0 cname).2 hc)
+                obtain ⟨hk1, hk2⟩ := bindFold_keys _ hbs hs1
+                simp only [addComp, SysOk]
+                refine ⟨?_, ?_, hk1, ?_, ?_⟩
+                · simpa using nodup_append_singleton hc1 hnotin
+                · intro c hc
+                  simp only [List.map_append, List.map_cons, List.map_nil, List.mem_append, List.mem_singleton] at hc
+                  rcases hc with hc | rfl
+                  · exact hc2 c hc
+                  · exact hdfc.1
+                · intro g hg
+                  rcases hk2 g hg with hg | hg
+                  · exact hs2 g hg
+                  · obtain ⟨z, hz, rfl⟩ := List.mem_map.1 hg
+                    exact hdfc.2 _ (List.of_mem_zip hz).1
+                · exact CompsOk_snoc pf cname inst c0 hcomps hpi hti
+              have := loadStmts_treeOk b fuel includes hLF r (addComp st sg l cname inst) a1 hnew
+                (fun s hs => hdf s (List.mem_cons_of_mem _ hs)) h
+              refine ⟨this.1, ?_⟩
+              rw [this.2]
+              cases st; rfl
+
+/-- a successful load of a bundle whose system sources use `-`-free instance and signal names yields a
+    well-formed tree carrying the requested prefix -/
+theorem loadFile_treeOk (b : Bundle) (hb : BundleDashFree b) :
+    ∀ (fuel : Nat) (includes : List String) (base : String) (args : Nat) (key pfx path : String) (a : Nat)
+      (inst : Inst) (a' : Nat), loadFile b fuel base args key pfx path includes a = .ok (inst, a') →
+      TreeOk inst ∧ instPfx inst = pfx
+  | 0, includes, base, args, key, pfx, path, a, inst, a', h => by
+    rw [loadFile] at h
+    cases h
+  | fuel + 1, includes, base, args, key, pfx, path, a, inst, a', h => by
+    have ih := loadStmts_treeOk b fuel includes
+      (fun base args key pfx path a inst a' h => loadFile_treeOk b hb fuel includes base args key pfx path a inst a' h)
+    rw [loadFile] at h
+    cases hri : resolveImport (fun p => b.exists_.contains (normPath p)) base path includes with
+    | error e => rw [hri] at h; cases h
+    | ok res =>
+      obtain ⟨fname, issys, newPath⟩ := res
+      rw [hri] at h
+      dsimp only at h
+      cases hlk : b.files.lookup (normPath fname ++ key) with
+      | none => simp [hlk] at h
+      | some fs =>
+        simp only [hlk] at h
+        cases fs with
+        | comp c =>
+          dsimp only at h
+          split at h
+          · cases h
+          · cases hld : Comp.load c args pfx a with
+            | error e => simp [hld] at h
+            | ok x =>
+              obtain ⟨st, a1⟩ := x
+              simp only [hld, Except.ok.injEq, Prod.mk.injEq] at h
+              obtain ⟨rfl, _⟩ := h
+              exact ⟨load_namesNodup hld, load_pfx hld⟩
+        | sys s =>
+          dsimp only at h
+          split at h
+          · cases h
+          · split at h
+            · cases h
+            · cases hls : loadStmts b fuel includes s.stmts (SysSt.mk newPath s.name pfx [] [] [] [] [] []) a with
+              | error e => simp [hls] at h
+              | ok x =>
+                obtain ⟨st, a1⟩ := x
+                simp only [hls] at h
+                have h0 : SysOk (SysSt.mk newPath s.name pfx [] [] [] [] [] []) := by
+                  simp [SysOk, CompsOk]
+                obtain ⟨hok, hpf⟩ := ih s.stmts _ a h0 (hb _ s hlk) hls
+                split at h
+                · cases h
+                · obtain ⟨p, n, pf, t, sg, l, c, i0, o0⟩ := st
+                  simp only [Except.ok.injEq, Prod.mk.injEq] at h
+                  obtain ⟨rfl, _⟩ := h
+                  exact ⟨hok, hpf⟩
 
 end systems
 
